@@ -48,6 +48,8 @@ def plan(prop, tier):
     }
     sch = {'C02': f, 'C08': f, 'C09': b}.get(prop, both)
     P[prop].append(('L8', lambda: LY.L8(tier, sch)))
+    if prop in ('C07', 'C14', 'C04', 'C03'):
+        P[prop].append(('L2n', lambda: LY.L2n(tier)))
     if prop != 'C09':
         P[prop].append(('L2m', lambda: LY.L2m(tier, both if prop == 'C14' else f)))
     return P[prop] + ([('HC', None)] if prop in ('C02', 'C03', 'C04', 'C07', 'C08', 'C09', 'C14') else [])
@@ -485,8 +487,11 @@ def c06_one(sc, acc, clock_menu_=None, chooser=None, start_pos=0):
                     sorted(o.succs, key=repr) != sorted([p.id for p in t.successors], key=repr):
                 V('links-differ', 'external-link' if sc.ext else '-', f'task {t.id}: predecessors {o.preds} successors {o.succs}, input '
                   f'{[p.id for p in t.predecessors]} {[p.id for p in t.successors]}')
-            if getattr(o.obj, 'tag', None) != getattr(t, 'tag', None) or o.obj.name != t.name:
-                V('custom-attributes-differ', '-', f'task {t.id}: tag {getattr(o.obj, "tag", None)!r}')
+            builtin = ('name', 'resource', 'start', 'end', 'estimate', 'spent', 'milestone', 'min_start')
+            pub_in = {k: v for k, v in vars(t).items() if not k.startswith('_') and k not in builtin}
+            pub_out = {k: v for k, v in vars(o.obj).items() if not k.startswith('_') and k not in builtin}
+            if pub_in != pub_out or o.obj.name != t.name:
+                V('custom-attributes-differ', '-', f'task {t.id}: custom attributes {pub_out!r}, input {pub_in!r}')
             if o.start is None or o.end is None:
                 V('task-without-dates', '-', f'task {t.id}: start {o.start} end {o.end}')
     if [r.id for r in res.schedule.roots] != [r.id for r in w.roots]:
